@@ -2,7 +2,8 @@
    ExtrOcamlBasic only: bool, option, unit, list, prod, sumbool, sumor map to the OCaml
    types; nat, positive, N, Z stay the extracted inductive types. *)
 From Coq Require Import Extraction ExtrOcamlBasic.
-From PV Require Import Base MachineInt VarintParams GenArith GenLoops Varint Utf8 DataModel Ser De Fixint.
+From PV Require Import Base MachineInt VarintParams GenArith GenLoops Varint Utf8 DataModel Ser De Fixint
+  Cobs Crc SerFlavors DeFlavors Accumulator WireFormat.
 Extraction Language OCaml.
 Extraction "../runner/model.ml"
   le_bytes of_le_bytes
@@ -13,4 +14,12 @@ Extraction "../runner/model.ml"
   Core.de_zig_zag_i16 Core.de_zig_zag_i32 Core.de_zig_zag_i64 Core.de_zig_zag_i128
   utf8_valid utf8_chars utf8_encode
   has_type wf_ty ser_ops enc ser_err de_slice slice_pop slice_take_n
-  fix_bytes fix_value fix_ty fix_decode.
+  fix_bytes fix_value fix_ty fix_decode
+  spec_enc spec_de spec_varint
+  decode_in_place_report crc
+  to_slice to_vec to_allocvec to_extend to_io serialized_size
+  to_slice_cobs to_vec_cobs to_allocvec_cobs
+  to_slice_crc to_vec_crc to_allocvec_crc
+  to_slice_crc_cobs to_vec_crc_cobs to_allocvec_crc_cobs to_recorder
+  take_from_bytes_ptr from_io take_from_bytes_crc from_bytes_cobs take_from_bytes_cobs
+  acc_new feed drive_chunk.
